@@ -3,7 +3,7 @@
    Shutdown => Err(Shutdown). write_reply: see Base/ServerRun.v. The decode level is session state
    that only the logging code reads (C20); nothing in handle_frame's result depends on it. *)
 From Coq Require Import NArith List.
-From Rodbus Require Import Base.Outcome Base.ServerTypes Base.ServerRun Model.Server.
+From Rodbus Require Import Base.Outcome Base.ServerTypes Base.ServerRun Model.Retry Model.RtuServerLoop Model.Server.
 Import ListNotations.
 
 Section SRun.
@@ -12,5 +12,9 @@ Variable H : handler St.
 
 Definition session_run (l : link) (a : auth) (units : ucfg St) (decode : N) (evs : list sevent)
   : list (list N) * ucfg St * list event * N * run_end serr :=
-  run (handle_frame H l a) units decode MIdle evs.
+  ServerRun.run (handle_frame H l a) units decode MIdle evs.
+
+(* serial/server.rs: RtuServerTask::run over the serial session (no authorization on serial links) *)
+Definition rtu_server_task (units : ucfg St) (decode : N) (retry : doubling) (eps : list episode) :=
+  rtu_task (handle_frame H LRtu NoAuth) units decode retry eps.
 End SRun.
